@@ -375,7 +375,7 @@ def c03_5(ctx: Ctx) -> RuleResult:
             if not used:
                 continue
             n += 1
-            uargs = list(used[0][2])
+            uargs = list(used[0][2]) + [v_ for _k, v_ in used[0][3]]
             rk = dict(r[3])
             for name in ("failed_realizations", "objective_weights", "constraint_weights"):
                 ok = name in rk and rk[name] in uargs
